@@ -173,6 +173,10 @@ def _amount(ctx, rep, eng, units):
                 matched_units = {ugroups[g] for cfg in cfgs for g in cfg if g in ugroups}
                 ngroups = {g for cfg in cfgs for g in cfg if g.startswith("n_")}
                 if digit_groups:
+                    rng = e2.int_range_of_group(P, digit_groups[0])
+                    if rng is not None and rng[1] != e2.INF:
+                        bad = bad or "the written number is read through a group of at most {} (a longer " \
+                            "number is matched from its tail and truncated)".format(rng[1])
                     if not (isinstance(value, IntV) and value.sym == ("int", ("group", text, digit_groups[0]))):
                         bad = bad or "amount is {} instead of the written number".format(
                             getattr(value, "sym", value))
